@@ -27,7 +27,9 @@ type c20Step struct {
 
 type c20Page struct {
 	Ccts []struct {
-		ID string `json:"id"`
+		ID        string `json:"id"`
+		IsCommit  bool   `json:"isCommit"`
+		IsCommit2 bool   `json:"is_commit"` // (the name depends on which encoder wrote the reply)
 	} `json:"ccts"`
 	Bookmark string `json:"bookmark"`
 }
@@ -49,9 +51,18 @@ func c20Query(w *World, size int64, bm string) (string, *c20Page) {
 	}
 	ids := make([]string, len(p.Ccts))
 	for i, c := range p.Ccts {
-		ids[i] = coqStr(c.ID)
+		ids[i] = coqStr(c20Shown(c.ID, c.IsCommit || c.IsCommit2))
 	}
 	return fmt.Sprintf("QOk %s %s", coqList(ids), coqStr(p.Bookmark)), &p
+}
+
+// c20Shown: how a record is written down in the observations: its id, followed by a mark when it is committed (a listing
+// hands records to the robot, which acts on that flag)
+func c20Shown(id string, committed bool) string {
+	if committed {
+		return id + "\x01c"
+	}
+	return id
 }
 
 // c20Legacy: ids of records put into the ledger of the next case directly, as an earlier release would have stored them
@@ -77,6 +88,17 @@ func c20Case(c *Ctx, ids []string, junk []string, walkSizes []int64, keepAll boo
 		c.Count("create_" + errClassShort(msg))
 		if msg == "" {
 			created[id] = true
+		}
+	}
+	// the robot has listed the records once before anything happens to them
+	if len(ids) > 0 {
+		bm := ""
+		for k := 0; k < 50; k++ {
+			_, p := c20Query(w, 3, bm)
+			if p == nil || p.Bookmark == "" {
+				break
+			}
+			bm = p.Bookmark
 		}
 	}
 	// life cycle: commit / cancel / delete some
@@ -149,9 +171,9 @@ func c20Case(c *Ctx, ids []string, junk []string, walkSizes []int64, keepAll boo
 		if strings.HasPrefix(k, "/transfer/") {
 			var tr fpb.CCTransfer
 			if err := jsonpbUnmarshal(w.Peer.Channels["tt"].State[k], &tr); err == nil {
-				id = tr.GetId()
+				id = c20Shown(tr.GetId(), tr.GetIsCommit())
 			} else if err := proto.Unmarshal(w.Peer.Channels["tt"].State[k], &tr); err == nil {
-				id = tr.GetId()
+				id = c20Shown(tr.GetId(), tr.GetIsCommit())
 			}
 		}
 		if strings.HasPrefix(k, c20Prefix) {
@@ -175,12 +197,14 @@ func c20Case(c *Ctx, ids []string, junk []string, walkSizes []int64, keepAll boo
 		res := w.Peer.Invoke("tt", w.Client.Creator, "channelTransferFrom", id)
 		if res.OK() {
 			var rec struct {
-				ID string `json:"id"`
+				ID        string `json:"id"`
+				IsCommit  bool   `json:"isCommit"`
+				IsCommit2 bool   `json:"is_commit"`
 			}
 			// a record exists under this id iff the point query returns a record carrying it
 			// (path.Join makes "a/" an alias of "a" for reads; that is not another record)
 			if err := json.Unmarshal(res.Payload, &rec); err == nil && rec.ID == id {
-				existing = append(existing, coqStr(id))
+				existing = append(existing, coqStr(c20Shown(id, rec.IsCommit || rec.IsCommit2)))
 			}
 		}
 	}
@@ -230,7 +254,7 @@ func c20Case(c *Ctx, ids []string, junk []string, walkSizes []int64, keepAll boo
 				break
 			}
 			for _, x := range p.Ccts {
-				got = append(got, coqStr(x.ID))
+				got = append(got, coqStr(c20Shown(x.ID, x.IsCommit || x.IsCommit2)))
 			}
 			if p.Bookmark == "" {
 				break
@@ -265,7 +289,7 @@ func errClassShort(msg string) string {
 
 func genC20(c *Ctx) error {
 	c.ShardSize = 6
-	c.Notes["rule"] = "each case: fresh chaincode; 0-9 origin-side transfers created through signed batched channelTransferByCustomer with ids from a pool (ids that are prefixes of each other, ids that differ only by trailing or leading white space, ids at and beyond '~', multi-byte ids up to the last code point U+10FFFF, duplicate ids, and ids on which path.Join is not concatenation: '.', '..', 'a/', '../to/x', 'a//b'), then committed / cancelled / committed+deleted at random; two destination-side records and unrelated keys just outside the range; all page sizes 1..n+1 and the two largest sizes the interface takes (2^31-2, 2^31-1) walked from the empty bookmark; single queries for sizes {1,2,n,n+1,2^31-1,0,-1,-100} x bookmarks {empty, every transfer key, keys outside the range, a non-existing key inside the range, the end key}. Plus sets of ids that differ only by white space at either end and ids of 114-151 bytes, all kept, half of them next to records of an earlier release whose ids hold a slash. Plus 5-7 records of 300 KiB each (a page of them is megabytes). Plus long listings: 230-330 records created in a permuted order, walked with page sizes 1, 7, 64, 99, 100, 101, 115, n-1, n, n+3, 1000. Plus single ids (fixed awkward ones, then random strings over letters, dots, slashes, blanks, multi-byte and invalid bytes, NUL) through CCFromTransfer / CCToTransfer / Base / IsValidID, each also used to create a record. Non-trivial: >= 2 records in range (an id case: a record was created, or the id has a dot or a slash)."
+	c.Notes["rule"] = "each case: fresh chaincode; 0-9 origin-side transfers created through signed batched channelTransferByCustomer with ids from a pool (ids that are prefixes of each other, ids that differ only by trailing or leading white space, ids at and beyond '~', multi-byte ids up to the last code point U+10FFFF, duplicate ids, and ids on which path.Join is not concatenation: '.', '..', 'a/', '../to/x', 'a//b'), listed once, then committed / cancelled / committed+deleted at random (a listed record carries its commit flag); two destination-side records and unrelated keys just outside the range; all page sizes 1..n+1 and the two largest sizes the interface takes (2^31-2, 2^31-1) walked from the empty bookmark; single queries for sizes {1,2,n,n+1,2^31-1,0,-1,-100} x bookmarks {empty, every transfer key, keys outside the range, a non-existing key inside the range, the end key}. Plus sets of ids that differ only by white space at either end and ids of 114-151 bytes, all kept, half of them next to records of an earlier release whose ids hold a slash. Plus 5-7 records of 300 KiB each (a page of them is megabytes). Plus long listings: 230-330 records created in a permuted order, walked with page sizes 1, 7, 64, 99, 100, 101, 115, n-1, n, n+3, 1000. Plus single ids (fixed awkward ones, then random strings over letters, dots, slashes, blanks, multi-byte and invalid bytes, NUL) through CCFromTransfer / CCToTransfer / Base / IsValidID, each also used to create a record. Non-trivial: >= 2 records in range (an id case: a record was created, or the id has a dot or a slash)."
 	rng := c.Rng
 	clean := []string{"a", "ab", "b", "a0", "zz", "é", "0", "A", "abc", "b-1", "~", "a b", "a ", "a\t", "ab ", " a", "~z", "\u007f", "振込", "\U0010FFFF", "\U0010FFFFz", "\U0010FFFEz", "\uFFFDa"}
 	unclean := []string{".", "..", "a/", "../to/x", "a//b", "x/y"}
